@@ -49,7 +49,19 @@ type LemmaStep struct {
 	Assume *Clause
 }
 
+// CallHook: a ghost action attached to the k-th call (source order) of a callee inside the function under contract.
+type CallHook struct {
+	Callee string // substring of the callee key ("*" = every call)
+	Ord    int    // 0 = every matching call
+	When   string // before | after
+	Kind   string // snap | assert
+	Name   string // snap variable
+	Clause *Clause
+	Where  string
+}
+
 type FuncContract struct {
+	Hooks      []*CallHook
 	File       string
 	PkgPath    string // package the contract file belongs to ("" for speclib)
 	Sig        string // raw signature text
@@ -103,7 +115,7 @@ type ContractFile struct {
 var clauseKW = map[string]bool{"func": true, "requires": true, "ensures": true, "assigns": true, "loop": true,
 	"invariant": true, "modifies": true, "unroll": true, "let": true, "checks": true, "trusted": true, "pure": true,
 	"implements": true, "ghost": true, "define": true, "axiom": true, "lemma": true, "calls": true, "assert": true,
-	"assume": true, "import": true, "noinline": true, "decreases": true}
+	"assume": true, "import": true, "noinline": true, "decreases": true, "atcall": true}
 
 var tagRe = regexp.MustCompile(`^((?:@C[0-9]+\s*)+):?\s*`)
 
@@ -326,6 +338,53 @@ func parseContractFile(path, pkgPath string, isSpeclib bool) (*ContractFile, err
 				} else {
 					cur.Lets = append(cur.Lets, ld)
 				}
+			case "atcall":
+				// atcall <callee>[#k] before|after: snap x := e   |   assert [@tags:] e
+				i := strings.Index(l.text, ":")
+				if i < 0 {
+					return nil, fmt.Errorf("%s: atcall <callee>[#k] before|after: ...", where)
+				}
+				hd := strings.Fields(l.text[:i])
+				body := strings.TrimSpace(l.text[i+1:])
+				if len(hd) != 2 || (hd[1] != "before" && hd[1] != "after") {
+					return nil, fmt.Errorf("%s: atcall <callee>[#k] before|after: ...", where)
+				}
+				h := &CallHook{Callee: hd[0], When: hd[1], Where: where}
+				if k := strings.Index(hd[0], "#"); k >= 0 {
+					n, err := strconv.Atoi(hd[0][k+1:])
+					if err != nil {
+						return nil, fmt.Errorf("%s: %v", where, err)
+					}
+					h.Callee, h.Ord = hd[0][:k], n
+				}
+				switch {
+				case strings.HasPrefix(body, "snap "):
+					parts := strings.SplitN(body[5:], ":=", 2)
+					if len(parts) != 2 {
+						return nil, fmt.Errorf("%s: snap x := e", where)
+					}
+					h.Kind, h.Name = "snap", strings.TrimSpace(parts[0])
+					c, err := mkClause("snap", strings.TrimSpace(parts[1]), l.line)
+					if err != nil {
+						return nil, err
+					}
+					h.Clause = c
+				case strings.HasPrefix(body, "assert "):
+					h.Kind = "assert"
+					c, err := mkClause("atcall", strings.TrimSpace(body[7:]), l.line)
+					if err != nil {
+						return nil, err
+					}
+					ordCount["atcall"]++
+					c.Ord = ordCount["atcall"]
+					for _, t := range c.Tags {
+						cur.Tags[t] = true
+					}
+					h.Clause = c
+				default:
+					return nil, fmt.Errorf("%s: atcall body must be snap or assert", where)
+				}
+				cur.Hooks = append(cur.Hooks, h)
 			case "checks":
 				for _, f := range strings.Fields(strings.ReplaceAll(l.text, ",", " ")) {
 					cur.Checks[f] = true
